@@ -82,6 +82,22 @@ func BuildMessage(plugin *Plugin, desc *generator.Descriptor, isRoot bool, path 
 		return nil, trace.Wrap(err)
 	}
 
+	// The oneofs of a message embedded by value are promoted to this struct together with its fields,
+	// they have to be reset along with the message's own oneofs
+	oneOfNames := c.GetOneOfNames()
+	for _, f := range fields {
+		if f.OneOfName == "" || f.ParentIsOptionalEmbed {
+			continue
+		}
+		known := false
+		for _, n := range oneOfNames {
+			known = known || n == f.OneOfName
+		}
+		if !known {
+			oneOfNames = append(oneOfNames, f.OneOfName)
+		}
+	}
+
 	message := &Message{
 		NamePath:       c.GetNamePath(),
 		Name:           c.GetName(),
@@ -90,7 +106,7 @@ func BuildMessage(plugin *Plugin, desc *generator.Descriptor, isRoot bool, path 
 		Fields:         fields,
 		IsRoot:         isRoot,
 		InjectedFields: c.GetInjectedFields(),
-		OneOfNames:     c.GetOneOfNames(),
+		OneOfNames:     oneOfNames,
 		IsEmpty:        c.IsEmpty(),
 	}
 
